@@ -8,6 +8,7 @@ Reads are defined through the Spec's primitive codecs, so a successful read
 returns, by definition, what the Spec reads.
 -/
 import EngineModel.Basic.Res
+import EngineModel.Basic.Checked
 import EngineModel.Format.Codec
 
 namespace EngineModel
@@ -43,6 +44,13 @@ def throwC {α} (e : Exn) : Cur α := fun _ => .throw e
 def takeN (n : Nat) : Cur Bytes := fun bs =>
   if n ≤ bs.length then .ok (bs.take n, bs.drop n) else .ub .oob_read
 
+/-- A computation that does not touch the cursor (checked arithmetic, `Chk.*`). -/
+def lift {α} (x : Res α) : Cur α := fun bs =>
+  match x with
+  | .ok a => .ok (a, bs)
+  | .throw e => .throw e
+  | .ub u => .ub u
+
 /-- `decode_extra(ptr, end)`: everything that is left. -/
 def rest : Cur Bytes := fun bs => .ok (bs, [])
 
@@ -63,6 +71,7 @@ def forN {α} (body : Cur α) : Nat → Cur (List α)
 @[simp] theorem throwC_run {α} (e : Exn) (bs : Bytes) : (throwC e : Cur α) bs = .throw e := rfl
 @[simp] theorem remaining_run (bs : Bytes) : remaining bs = .ok (bs.length, bs) := rfl
 @[simp] theorem rest_run (bs : Bytes) : rest bs = .ok (bs, []) := rfl
+@[simp] theorem lift_ok_run {α} (a : α) (bs : Bytes) : lift (.ok a) bs = .ok (a, bs) := rfl
 
 theorem rd_of_dec {α} {c : Codec α} {bs a r} (h : c.dec bs = some (a, r)) :
     rd c bs = .ok (a, r) := by simp [rd, h]
